@@ -950,6 +950,7 @@ class _InternalBaseTracer(_InternalBaseTracerSuper, metaclass=MetaTracerStateMac
             else:
                 assert isinstance(code, ast.stmt)
                 code_body = [code]
+            _check_module_level_only(code_body, filename)
             fundef.body = code_body + fundef.body
             try:
                 self.exec_raw(
@@ -1130,6 +1131,39 @@ def skip_when_tracing_disabled(handler):
         return handler(self, *args, **kwargs)
 
     return skipping_handler
+
+
+class _ModuleLevelChecker(ast.NodeVisitor):
+    """`exec` runs the program as the body of a function, where `return` and `yield` would be accepted (and would
+    replace the mapping the function is to return): they are syntax errors of the program, as for the builtin."""
+
+    def __init__(self, filename: str) -> None:
+        self.filename = filename
+
+    def _error(self, what: str, node: ast.AST) -> None:
+        raise SyntaxError(
+            f"'{what}' outside function",
+            (self.filename, getattr(node, "lineno", 1), None, None),
+        )
+
+    def visit_FunctionDef(self, node: ast.AST) -> None:
+        pass
+
+    visit_AsyncFunctionDef = visit_Lambda = visit_FunctionDef
+
+    def visit_Return(self, node: ast.Return) -> None:
+        self._error("return", node)
+
+    def visit_Yield(self, node: ast.AST) -> None:
+        self._error("yield", node)
+
+    visit_YieldFrom = visit_Yield
+
+
+def _check_module_level_only(body: List[ast.stmt], filename: str) -> None:
+    checker = _ModuleLevelChecker(filename)
+    for stmt in body:
+        checker.visit(stmt)
 
 
 def parse_function_source(f: Callable) -> ast.Module:
